@@ -10,57 +10,6 @@ import Wbxml.Lemmas.EncWRt
 namespace Wbxml.Lemmas.Rt
 open Wbxml Wbxml.Model Wbxml.Spec Wbxml.Lemmas.ParserSafe Wbxml.Lemmas.ParseSer
 
-/-! ### The tree read off a grammar element -/
-
-/-- Character data joins the children as a text node — merged into a preceding text sibling —
-    unless it is empty (`charsEv` reports nothing then). -/
-def addChars (kids : List Node) (s : Bytes) : List Node :=
-  if s.isEmpty then kids else addKid kids (.text s)
-
-mutual
-/-- The node an element of the grammar stands for (pages threaded as in `evElem`). -/
-def nodeOfElem (c : Ctx) (pg : Pages) : Elem → Node
-  | .mk sw tag attrs content =>
-    .elt (tagName c (swPage sw pg.tag) tag).1 (evAttrs c pg.attr attrs).1
-      (kidsOfContent c (tagName c (swPage sw pg.tag) tag).2 ⟨swPage sw pg.tag, (evAttrs c pg.attr attrs).2⟩ content [])
-def kidsOfContent (c : Ctx) (own : Option TagRow) (pg : Pages) : Option (List Item) → List Node → List Node
-  | none, acc => acc
-  | some items, acc => kidsOfItems c own pg items acc
-/-- The children a content sequence adds to the children `acc` collected so far. -/
-def kidsOfItems (c : Ctx) (own : Option TagRow) (pg : Pages) : List Item → List Node → List Node
-  | [], acc => acc
-  | it :: rest, acc => kidsOfItems c own (evItem c own pg it).2 rest (kidOfItem c own pg it acc)
-def kidOfItem (c : Ctx) (own : Option TagRow) (pg : Pages) : Item → List Node → List Node
-  | .elem e, acc => addKid acc (nodeOfElem c pg e)
-  | .str s, acc => addChars acc (strText c s)
-  | .entity code, acc => addChars acc (entityText code)
-  | .opaque d, acc => addChars acc ((opaqueText c own d).getD [])
-  | .ext _ x, acc => addChars acc ((extText c x).getD [])
-  | .pi _, acc => acc
-end
-
-
-theorem kidsOfItems_nil (c own pg acc) : kidsOfItems c own pg [] acc = acc := by rw [kidsOfItems]
-theorem kidsOfItems_cons (c own pg it rest acc) : kidsOfItems c own pg (it :: rest) acc =
-    kidsOfItems c own (evItem c own pg it).2 rest (kidOfItem c own pg it acc) := by rw [kidsOfItems]
-theorem kidsOfContent_none (c own pg acc) : kidsOfContent c own pg none acc = acc := by rw [kidsOfContent]
-theorem kidsOfContent_some (c own pg items acc) :
-    kidsOfContent c own pg (some items) acc = kidsOfItems c own pg items acc := by rw [kidsOfContent]
-theorem nodeOfElem_mk (c : Ctx) (pg : Pages) (sw tag attrs content) : nodeOfElem c pg (.mk sw tag attrs content) =
-    .elt (tagName c (swPage sw pg.tag) tag).1 (evAttrs c pg.attr attrs).1
-      (kidsOfContent c (tagName c (swPage sw pg.tag) tag).2 ⟨swPage sw pg.tag, (evAttrs c pg.attr attrs).2⟩ content []) := by
-  rw [nodeOfElem]
-theorem kidOfItem_elem (c own pg e acc) : kidOfItem c own pg (.elem e) acc = addKid acc (nodeOfElem c pg e) := by
-  rw [kidOfItem]
-theorem kidOfItem_str (c own pg s acc) : kidOfItem c own pg (.str s) acc = addChars acc (strText c s) := by rw [kidOfItem]
-theorem kidOfItem_entity (c own pg code acc) : kidOfItem c own pg (.entity code) acc = addChars acc (entityText code) := by
-  rw [kidOfItem]
-theorem kidOfItem_opaque (c own pg d acc) :
-    kidOfItem c own pg (.opaque d) acc = addChars acc ((opaqueText c own d).getD []) := by rw [kidOfItem]
-theorem kidOfItem_ext (c own pg sw x acc) : kidOfItem c own pg (.ext sw x) acc = addChars acc ((extText c x).getD []) := by
-  rw [kidOfItem]
-theorem kidOfItem_pi (c own pg a acc) : kidOfItem c own pg (.pi a) acc = acc := by rw [kidOfItem]
-
 /-! ### `syncmlDataType` answers `normal` unless the innermost open element is called `Data` -/
 
 def dataName : Bytes := b!"Data"
